@@ -45,6 +45,21 @@ EXPECT += [
      "why": "a fault inside a callee is an error of the call"},
 ]
 
+# every statement form that takes a right-hand side evaluates it once, whatever kind of value it yields (a module, a
+# function, a container, nil, an error value, a number)
+_KINDS = [("a module", "module m { a = 1 }", "m"), ("a function", "f0 = func() { return 1 }", "f0"), ("a list", "l0 = [1]", "l0"), ("a map", "m0 = {\"k\": 1}", "m0"),
+          ("nil", "n0 = nil", "n0"), ("an error value", "e0 = nil; try { throw \"x\" } catch q { e0 = q }", "e0"), ("a number", "i0 = 5", "i0"), ("a string", "s0 = \"s\"", "s0")]
+for _kn, _decl, _val in _KINDS:
+    for _form, _stmt in (("x = e", "x = pick()"), ("var x = e", "var x = pick()"), ("o.f = e", "o = {}; o.f = pick()"), ("a[i] = e", "a = [0]; a[0] = pick()"),
+                         ("x, y = e, e", "x, y = pick(), pick2()"), ("x = c ? e : e", "x = probe(\"c\") ? pick() : pick2()"), ("x = e ?? e", "x = pick() ?? pick2()"),
+                         ("return e", "func g() { return pick() }; g()"), ("f(e)", "func g(p) { }; g(pick())"), ("[e]", "x = [pick()]"), ("{k: e}", "x = {\"k\": pick()}"),
+                         ("m[k] = e in a function", "func g() { o = {}; o[\"k\"] = pick(); return 1 }; g()"), ("x = (e)", "x = (pick())"), ("c <- e", "c = make(chan interface, 1); c <- pick()")):
+        _want = {"x, y = e, e": "(s:70);(s:7032)", "x = c ? e : e": "(s:63);(s:70)"}.get(_form, "(s:70)")
+        if _form == "x = e ?? e" and _kn == "nil":
+            _want = "(s:70);(s:7032)"
+        EXPECT.append({"src": "%s\nfunc pick() { probe(\"p\"); return %s }\nfunc pick2() { probe(\"p2\"); return %s }\n%s\nnil" % (_decl, _val, _val, _stmt), "field": "trace",
+                       "want": _want, "finding": None, "why": "%s: the right-hand side yields %s and is evaluated exactly once" % (_form, _kn)})
+
 
 def run(tier, seed, replay=None):
     return interpcheck.run_interp_check(
